@@ -385,7 +385,7 @@ def run(f, fixture, rep, cfg, tier):
     gpc = f.one("PackageMetadata::get_payload_compressor")
     cl = f.closures_of(gpc)
     none_on_missing = any(st["k"] == "assign" and st["rv"]["r"] == "agg" and st["rv"].get("variant") == "None" and st["rv"].get("adt", "").endswith("CompressionType")
-                          for cb in cl for bb in cb.reachable() for st in cb.stmts(bb))
+                          for cb in [gpc] + list(cl) for bb in cb.reachable() for st in cb.stmts(bb))
     rep.check(none_on_missing, "R6", "codec|None|absent-tag", "an absent compressor tag reads back as None", "get_payload_compressor no longer maps a missing tag to CompressionType::None", gpc.span)
 
     # ---- R7 ---------------------------------------------------------------------------------------------------------
